@@ -23,13 +23,13 @@ type schedLink struct {
 	obj sched.Obj // scheduling identity of the client endpoint
 
 	// client side (touched only by the running managed thread or by effects in scheduler context)
-	inbuf   []byte
-	pending [][]byte // peer output not yet delivered
-	closed  bool     // client closed its end
-	peerEOF bool     // peer closed; delivered as the last "chunk"
+	inbuf        []byte
+	pending      [][]byte // peer output not yet delivered
+	closed       bool     // client closed its end
+	peerEOF      bool     // peer closed; delivered as the last "chunk"
 	eofDelivered bool
-	writes  [][]byte // everything the client wrote
-	direct  bool     // peer output is delivered at once (no network thread)
+	writes       [][]byte // everything the client wrote
+	direct       bool     // peer output is delivered at once (no network thread)
 
 	// peer side (real synchronisation: the peer goroutine is not managed)
 	mu       sync.Mutex
@@ -83,8 +83,8 @@ func (p peerEnd) Close() error {
 	l.mu.Unlock()
 	return nil
 }
-func (p peerEnd) LocalAddr() net.Addr                { return memAddr("peer") }
-func (p peerEnd) RemoteAddr() net.Addr               { return memAddr("client") }
+func (p peerEnd) LocalAddr() net.Addr              { return memAddr("peer") }
+func (p peerEnd) RemoteAddr() net.Addr             { return memAddr("client") }
 func (p peerEnd) SetDeadline(time.Time) error      { return nil }
 func (p peerEnd) SetReadDeadline(time.Time) error  { return nil }
 func (p peerEnd) SetWriteDeadline(time.Time) error { return nil }
@@ -176,8 +176,8 @@ func (c clientEnd) Close() error {
 	l.mu.Unlock()
 	return nil
 }
-func (c clientEnd) LocalAddr() net.Addr                { return memAddr("client") }
-func (c clientEnd) RemoteAddr() net.Addr               { return memAddr("peer") }
+func (c clientEnd) LocalAddr() net.Addr              { return memAddr("client") }
+func (c clientEnd) RemoteAddr() net.Addr             { return memAddr("peer") }
 func (c clientEnd) SetDeadline(time.Time) error      { return nil }
 func (c clientEnd) SetReadDeadline(time.Time) error  { return nil }
 func (c clientEnd) SetWriteDeadline(time.Time) error { return nil }
